@@ -58,25 +58,62 @@ def poll(limiter):
         return e.value
 
 
-def run_impl(ops, start_limit=None):
-    """ops: list of ('T', now_ticks) | ('L', kbps). Mirrors Network.set_*_speed_limit for 'L'.
+_NET = {}
+
+
+def _network():
+    """A real Network object (never connected) whose limiter slots and set_*_speed_limit are used."""
+    from aioslsk.network.network import Network
+    from aioslsk.events import EventBus
+    from vlib.world import make_settings
+    import tempfile
+    import shutil
+    tmp = tempfile.mkdtemp(prefix='verif_c20_')
+    try:
+        return Network(make_settings(tmp=tmp), EventBus())
+    finally:
+        shutil.rmtree(tmp, ignore_errors=True)
+
+
+def run_impl(ops, direction='upload', nconn=3):
+    """ops: list of ('T', now_ticks) | ('L', kbps). 'L' goes through the real
+    Network.set_<direction>_speed_limit; polls are made by real file PeerConnection objects
+    (finalised by Network._finalize_peer_connection, round-robin; a new one joins after each
+    limit change) through their own <direction>_rate_limiter attribute.
     Returns list of (grant, bucket, limit_bps, full_before, stale_before) per op."""
+    from aioslsk.network.connection import PeerConnection, PeerConnectionType
     clock = Clock()
     rl, undo = install(clock)
     try:
-        cur = rl.RateLimiter.create_limiter(0)
+        net = _network()
+        attr = f'{direction}_rate_limiter'
+        setter = getattr(net, f'set_{direction}_speed_limit')
+        setter(0)
+        conns = []
+
+        def add_conn():
+            c = PeerConnection('10.0.0.5', 1234, net, connection_type=PeerConnectionType.FILE)
+            net.peer_connections.append(c)
+            net._finalize_peer_connection(c)
+            conns.append(c)
+        for _ in range(nconn):
+            add_conn()
         out = []
+        k = 0
         for kind, v in ops:
             if kind == 'T':
                 clock.ticks = v
+                k += 1
+                cur = getattr(conns[k % len(conns)], attr)
                 full = isinstance(cur, rl.LimitedRateLimiter) and cur.bucket == cur.limit_bps
                 stale = full and cur.last_refill * TICK < v
                 g = poll(cur)
                 out.append((g, cur.bucket, cur.limit_bps, full, stale))
             else:
-                new = rl.RateLimiter.create_limiter(v)
-                new.copy_tokens(cur)
-                cur = new
+                setter(v)
+                if len(conns) < 4:
+                    add_conn()
+                cur = getattr(net, f'_{direction}_rate_limiter')
                 out.append((0, cur.bucket, cur.limit_bps, False, False))
         return out
     finally:
@@ -180,18 +217,25 @@ def coq_cases(cases):
     return '\n'.join(lines) + '\n'
 
 
-def stack_run(rng, kbps, nconn, size, upload=True):
-    """Real PeerConnection.send_file / receive_file sharing one limiter under virtual time.
-    Returns list of (time_ticks, nbytes) deliveries."""
+def stack_run(rng, kbps, nconn, size, upload=True, changes=()):
+    """Real PeerConnection.send_file / receive_file on connections of a real Network sharing its
+    limiter slot, under virtual time; `changes` = [(delay_s, new_kbps)] applied through the real
+    Network.set_*_speed_limit while transfers are running (waiters may be in flight).
+    Returns (deliveries [(time_ticks, nbytes)], segments [(start_ticks, limit_bps)])."""
     import asyncio
     from vlib import vloop
     import aioslsk.network.rate_limiter as rl
-    from aioslsk.network.connection import PeerConnection
+    from aioslsk.network.connection import PeerConnection, PeerConnectionType
     loop = vloop.new_loop(start=float(rng.choice([0, 5, 1000])))
     undo = vloop.patch_time(loop, [rl])
     deliveries = []
+    segments = []
     try:
-        limiter = rl.RateLimiter.create_limiter(kbps)
+        net = _network()
+        direction = 'upload' if upload else 'download'
+        setter = getattr(net, f'set_{direction}_speed_limit')
+        setter(kbps)
+        segments.append((round(loop.time() * TICK), kbps * 1024))
 
         class FH:
             def __init__(self, n):
@@ -207,9 +251,9 @@ def stack_run(rng, kbps, nconn, size, upload=True):
 
         conns = []
         for i in range(nconn):
-            c = PeerConnection.__new__(PeerConnection)
-            c.upload_rate_limiter = limiter
-            c.download_rate_limiter = limiter
+            c = PeerConnection('10.0.0.5', 1000 + i, net, connection_type=PeerConnectionType.FILE)
+            net.peer_connections.append(c)
+            net._finalize_peer_connection(c)
             if upload:
                 async def send_data(data, c=c):
                     deliveries.append((round(loop.time() * TICK), len(data)))
@@ -227,29 +271,43 @@ def stack_run(rng, kbps, nconn, size, upload=True):
                 c.receive_data = receive_data
             conns.append(c)
 
+        async def changer():
+            for delay, k in changes:
+                await asyncio.sleep(delay)
+                setter(k)
+                segments.append((round(loop.time() * TICK), k * 1024))
+
         async def main():
+            ch = asyncio.ensure_future(changer())
             if upload:
                 await asyncio.gather(*[c.send_file(FH(size)) for c in conns])
             else:
                 await asyncio.gather(*[c.receive_file(FH(0), size) for c in conns])
+            ch.cancel()
         loop.run_coro(main(), timeout_virtual=1e6)
-        return deliveries, limiter.limit_bps
+        return deliveries, segments
     finally:
         undo()
         vloop.close_loop(loop)
 
 
-def stack_monitor(deliv, Lbps):
-    pre = [0]
-    for _, n in deliv:
-        pre.append(pre[-1] + n)
+def stack_monitor(deliv, segments):
+    """Worst excess (ticks*bytes) over windows lying inside one limit segment (limit > 0)."""
     worst = 0
-    n = len(deliv)
-    for i in range(n):
-        for j in range(i, n):
-            T = deliv[j][0] - deliv[i][0]
-            excess = (pre[j + 1] - pre[i]) * TICK - (Lbps * T + Lbps * TICK)
-            worst = max(worst, excess)
+    bounds = segments + [(None, None)]
+    for (start, Lbps), (end, _) in zip(bounds, bounds[1:]):
+        if not Lbps:
+            continue
+        seg = [(t, n) for t, n in deliv if t >= start and (end is None or t < end)]
+        pre = [0]
+        for _, n in seg:
+            pre.append(pre[-1] + n)
+        m = len(seg)
+        for i in range(m):
+            for j in range(i, m):
+                T = seg[j][0] - seg[i][0]
+                excess = (pre[j + 1] - pre[i]) * TICK - (Lbps * T + Lbps * TICK)
+                worst = max(worst, excess)
     return worst
 
 
@@ -286,7 +344,8 @@ def run(run: Run):
     for i in range(ncases):
         ops = gen_ops(run.rng, run.rng.randrange(1, maxlen))
         try:
-            obs = run_impl(ops)
+            direction = 'upload' if i % 2 else 'download'
+            obs = run_impl(ops, direction, 1 + i % 4)
         except Exception as e:  # implementation crashed: a finding in itself
             run.add_finding(Finding('impl-exception', f'limiter raised {type(e).__name__}: {e}', ops[:50]))
             continue
@@ -367,29 +426,40 @@ def run(run: Run):
             run.add_broken(e.obligation, e.detail)
 
     # full stack: send_file / receive_file through the limiter under virtual time
-    nstack = 12 if run.tier == 'quick' else 80
+    nstack = 16 if run.tier == 'quick' else 100
     for i in range(nstack):
         kbps = run.rng.choice([1, 2, 5, 10, 100])
         nconn = run.rng.randrange(1, 5)
         size = run.rng.choice([0, 1, 127, 128, 129, 1000, 5000, 20000])
         upload = bool(i % 2)
+        changes = []
+        if i % 3 == 0:
+            changes = [(run.rng.choice([0.0, 0.005, 0.3, 1.0, 2.5]), run.rng.choice([1, 2, 5, 50, 0]))
+                       for _ in range(run.rng.randrange(1, 3))]
+        desc = {'kbps': kbps, 'connections': nconn, 'size': size, 'upload': upload, 'changes': changes}
         try:
-            deliv, Lbps = stack_run(run.rng, kbps, nconn, size, upload)
+            deliv, segments = stack_run(run.rng, kbps, nconn, size, upload, changes)
         except Exception as e:
-            run.add_finding(Finding('stack-stall', f'{"send_file" if upload else "receive_file"} did not finish: {type(e).__name__}: {e}',
-                                    {'kbps': kbps, 'connections': nconn, 'size': size, 'upload': upload}))
+            run.add_finding(Finding('stack-stall', f'{"send_file" if upload else "receive_file"} did not finish: {type(e).__name__}: {e}', desc))
             continue
-        run.case({'stack': [kbps, nconn, size, upload]}, nontrivial=size > 128, kind='stack')
+        run.case({'stack': desc}, nontrivial=size > 128, kind='stack')
         tot = sum(n for _, n in deliv)
         if tot != size * nconn:
-            run.add_finding(Finding('stack-bytes', f'moved {tot} bytes, expected {size * nconn}', {'kbps': kbps, 'connections': nconn, 'size': size}))
-        ex = stack_monitor(deliv, Lbps)
+            run.add_finding(Finding('stack-bytes', f'moved {tot} bytes, expected {size * nconn}', desc))
+        ex = stack_monitor(deliv, segments)
         if ex > 128 * TICK:
-            run.add_finding(Finding('stack-window-bound', f'file connections exceeded the window bound by {ex // TICK} B',
-                                    {'kbps': kbps, 'connections': nconn, 'size': size, 'upload': upload}))
+            run.add_finding(Finding('stack-window-bound', f'file connections exceeded the window bound by {ex // TICK} B', desc))
         elif ex > 0:
-            run.add_finding(Finding(F25_KEY, 'window bound exceeded by <= 128 B on file connections (stale timestamp after full bucket)',
-                                    {'kbps': kbps, 'connections': nconn, 'size': size, 'upload': upload}))
+            run.add_finding(Finding(F25_KEY, 'window bound exceeded by <= 128 B on file connections (stale timestamp after full bucket)', desc))
+        # unlimited must not be throttled: no virtual time may pass
+        if kbps == 0 and deliv and deliv[-1][0] != deliv[0][0]:
+            run.add_finding(Finding('unlimited-throttled', 'virtual time passed during an unlimited transfer', desc))
+    for upload in (True, False):
+        desc = {'kbps': 0, 'connections': 2, 'size': 50000, 'upload': upload}
+        deliv, _ = stack_run(run.rng, 0, 2, 50000, upload)
+        run.case({'stack': desc}, kind='stack-unlimited')
+        if deliv and deliv[-1][0] != deliv[0][0]:
+            run.add_finding(Finding('unlimited-throttled', 'virtual time passed during an unlimited transfer', desc))
 
 
 def _exceeds(ops, slack):
